@@ -363,6 +363,21 @@ class Ctx:
         Failing cases are shrunk (delta debugging over case[shrink_key]) and
         recorded.  Corpus cases for this stratum are replayed first.
         """
+        inner_run = run
+
+        def run(case, _inner=inner_run):      # noqa: F811
+            """An exception that escapes from the library while a check runs a generated (valid) case is a failing
+            input for the property, not a harness error (harness bugs have no frame inside ribs/)."""
+            try:
+                return _inner(case)
+            except Infra:
+                raise
+            except Exception as e:      # pylint: disable=broad-except
+                f = library_failure(e, [self.prop_id], "the library, on a generated valid case,")
+                if f is None:
+                    raise
+                return f
+
         nfail = 0
         t_start = time.time()
         corpus = load_corpus(self.prop_id, name)
